@@ -13,6 +13,7 @@ import (
 	"os"
 	"sort"
 	"strings"
+	"sync"
 )
 
 // ---------------------------------------------------------------------------------------------
@@ -189,6 +190,41 @@ func (vt *v2T) scenC02() {
 		}
 		for _, w := range ins {
 			vt.match(rc, []byte(lines(w)), v2MatchOpts{scored: true})
+		}
+		vt.reset(false)
+	}
+	// a document registered again under the same (category, name, variant) with another text: what is reported under that
+	// triple afterwards is scored against the text the triple identifies NOW
+	{
+		rc := vt.build("c02repl", 0.8, nil)
+		mk := func(tag string, n int) string {
+			var sb strings.Builder
+			for i := 0; i < n; i++ {
+				fmt.Fprintf(&sb, "rpl%s%c%c", tag, 'a'+i%26, 'a'+i/26)
+				if i%8 == 7 || i == n-1 {
+					sb.WriteByte('\n')
+				} else {
+					sb.WriteByte(' ')
+				}
+			}
+			return sb.String()
+		}
+		oldT, newT, other := mk("o", 40), mk("n", 33), mk("x", 25)
+		key := v2Doc{Key: "License/Replaced/license.txt", Cat: "License", Name: "Replaced", Variant: "license.txt"}
+		key.Data = []byte(oldT)
+		vt.add(rc, key)
+		vt.add(rc, v2Doc{Key: "License/Other/license.txt", Cat: "License", Name: "Other", Variant: "license.txt", Data: []byte(other)})
+		vt.match(rc, []byte("zzqxv\n"+oldT+"qqzzk\n"), v2MatchOpts{scored: true})
+		key.Data = []byte(newT)
+		vt.add(rc, key)
+		for _, in := range []string{oldT, newT, "zzqxv\n" + oldT + "qqzzk\n" + newT + "xqzvv\n" + other, newT + oldT} {
+			vt.match(rc, []byte(in), v2MatchOpts{scored: true})
+		}
+		// ... and once more, back to a variant of the first text
+		key.Data = []byte(strings.Replace(oldT, "rploc", "rplzz", 1))
+		vt.add(rc, key)
+		for _, in := range []string{oldT, newT} {
+			vt.match(rc, []byte(in), v2MatchOpts{scored: true})
 		}
 		vt.reset(false)
 	}
@@ -393,18 +429,11 @@ func (vt *v2T) scenC04() {
 				in := inputs[ii]
 				switch vt.rng.Intn(5) {
 				case 0:
-					other := inputs[vt.rng.Intn(len(inputs))]
-					cp := v2Spare(other)
-					d0, w0 := len(c.c.docs), len(c.c.dict.words)
-					c.c.Normalize(cp)
-					vt.emit(map[string]interface{}{"ev": "norm", "c": c.id, "unchanged": v2Intact(cp, other), "docs": []int{d0, len(c.c.docs)}, "dict": []int{w0, len(c.c.dict.words)}})
+					vt.normalize(c, inputs[vt.rng.Intn(len(inputs))])
 				case 1:
 					vt.match(c, inputs[vt.rng.Intn(len(inputs))], v2MatchOpts{api: "MatchFrom"})
 				case 2: // the very input is normalized first
-					cp := v2Spare(in)
-					d0, w0 := len(c.c.docs), len(c.c.dict.words)
-					c.c.Normalize(cp)
-					vt.emit(map[string]interface{}{"ev": "norm", "c": c.id, "unchanged": v2Intact(cp, in), "docs": []int{d0, len(c.c.docs)}, "dict": []int{w0, len(c.c.dict.words)}})
+					vt.normalize(c, in)
 				}
 				api := "Match"
 				if (ci+ii+round)%3 == 0 {
@@ -552,7 +581,9 @@ func (vt *v2T) scenC08() {
 		id := v2Ident(nl)
 		// (1) fragmentations
 		frags := [][]int{{1}, {1 << 20}, {7}, {1024}, {1020, 4}, {1023, 1, 1}, {3, 1021}, {vt.rng.Intn(2000) + 1, vt.rng.Intn(50) + 1, vt.rng.Intn(1100) + 1},
-			{1024, 1016}, {1024, 1017}, {1024, 1018}, {1024, 1019, 5}, {1000, 24, 1016, 1020, 1016, 1018}, {1024, 1016 + vt.rng.Intn(4), 1020, 1016 + vt.rng.Intn(4)}}
+			{1024, 1016}, {1024, 1017}, {1024, 1018}, {1024, 1019, 5}, {1000, 24, 1016, 1020, 1016, 1018}, {1024, 1016 + vt.rng.Intn(4), 1020, 1016 + vt.rng.Intn(4)},
+			// empty reads without error between the reads that deliver (a non-blocking source): neither an end nor a failure
+			{5, 0}, {0, 0, 3, 0}, {1, 0, 0}, {700, 0, 0, 0, 330}}
 		for fi, fr := range frags {
 			fr := fr
 			eof := fi%2 == 1
@@ -626,6 +657,84 @@ func (vt *v2T) scenC08() {
 		}
 		vt.reset(false)
 	}
+	// (4) calls that overlap in time, after calls that failed: two readers take turns, 1..200 bytes each, so that each call
+	// is in the middle of filling its buffer while the other one reads and decodes; whatever a failed call left behind
+	// (pooled buffers, ...) must not leak from one stream into the other.  Each result must be that of Match on the bytes.
+	for rep := 0; rep < 6 && len(contents) >= 2; rep++ {
+		a, b := contents[vt.rng.Intn(len(contents))], contents[vt.rng.Intn(len(contents))]
+		if len(a) < 200 || len(b) < 200 {
+			continue
+		}
+		for _, x := range [][]byte{a, b} {
+			vt.emitMatch(c, x, vt.matchQuiet(c, x, "Match"), "c08ovl|"+v2Hash(x), "Match")
+		}
+		for k := 0; k < 1+rep%3; k++ {
+			e := fmt.Errorf("verif reader fault before overlapping calls %d/%d", rep, k)
+			c.c.MatchFrom(&v2ChunkReader{data: append([]byte(nil), a...), chunks: []int{64}, failAt: 64 * (k + 1), failErr: e, withErr: k%2 == 1})
+		}
+		alt := &v2Alt{}
+		alt.cond = sync.NewCond(&alt.mu)
+		var res [2]Results
+		var errs [2]error
+		var wg sync.WaitGroup
+		for id, x := range [][]byte{a, b} {
+			wg.Add(1)
+			go func(id int, x []byte) {
+				defer wg.Done()
+				res[id], errs[id] = c.c.MatchFrom(&v2TurnReader{alt: alt, id: id, data: append([]byte(nil), x...), step: 1 + (rep*37+id*101)%200})
+			}(id, x)
+		}
+		wg.Wait()
+		for id, x := range [][]byte{a, b} {
+			if errs[id] != nil {
+				vt.emit(map[string]interface{}{"ev": "panic", "api": "MatchFrom", "msg": "a reader that never fails, overlapping with another call: " + errs[id].Error()})
+				continue
+			}
+			vt.emitMatch(c, x, res[id], "c08ovl|"+v2Hash(x), "MatchFrom")
+		}
+		vt.reset(false)
+	}
+}
+
+// v2TurnReader: two readers that deliver in turns (a reader whose peer has finished goes on alone).
+type v2Alt struct {
+	mu   sync.Mutex
+	cond *sync.Cond
+	turn int
+	done [2]bool
+}
+
+type v2TurnReader struct {
+	alt  *v2Alt
+	id   int
+	data []byte
+	step int
+}
+
+func (r *v2TurnReader) Read(p []byte) (int, error) {
+	a := r.alt
+	a.mu.Lock()
+	defer a.mu.Unlock()
+	for a.turn != r.id && !a.done[1-r.id] {
+		a.cond.Wait()
+	}
+	n := r.step
+	if n > len(p) {
+		n = len(p)
+	}
+	if n > len(r.data) {
+		n = len(r.data)
+	}
+	copy(p, r.data[:n])
+	r.data = r.data[n:]
+	a.turn = 1 - r.id
+	var err error
+	if len(r.data) == 0 {
+		a.done[r.id] = true
+		err = io.EOF
+	}
+	a.cond.Broadcast()
+	return n, err
 }
 
 // ---------------------------------------------------------------------------------------------
